@@ -501,10 +501,10 @@ def simplify_boolean_expressions(source: str) -> str:
                             always_true |= isinstance(node.op, ast.Or)
 
                     for gte, gte_value in bounds[ast.GtE]:
-                        if gt > gte:
+                        if gt >= gte:
                             redundant_and_values.add(gte_value)
                             redundant_or_values.add(gt_value)
-                        if gt <= gte:
+                        if gt < gte:
                             redundant_and_values.add(gt_value)
                             redundant_or_values.add(gte_value)
 
